@@ -25,6 +25,12 @@ func addShortcutConstraint(node ischema.Node, rootSchema *ischema.ISchema, lex l
 	val := lex.Value().String()
 
 	if strings.ContainsRune(val, '|') {
+		for _, s := range strings.Split(val, "|") {
+			if strings.TrimSpace(s) == "" {
+				// The text ends right after the pipe: "@foo |".
+				return errs.ErrUnexpectedEOF.F()
+			}
+		}
 		addORShortcut(node, rootSchema, val)
 	} else {
 		addTypeShortcut(node, val)
